@@ -387,6 +387,12 @@ def snake_removal(self, left=False):
                     or not isinstance(diagram.boxes[cup], Cup)\
                     or left_snake and diagram.offsets[cup] + 1 != wire\
                     or not left_snake and diagram.offsets[cup] != wire
+                if not not_yankable:  # the wire that gets straightened
+                    straight = (
+                        diagram.boxes[cup].dom[:1], diagram.boxes[cap].cod[1:])\
+                        if left_snake else (
+                        diagram.boxes[cup].dom[1:], diagram.boxes[cap].cod[:1])
+                    not_yankable = straight[0] != straight[1]
                 if not_yankable:
                     continue
                 return cup, cap, obstructions, left_snake
